@@ -1,4 +1,5 @@
 """C17 — read_line delivers successive input lines, whatever the chunking."""
+import re
 from ..guards import ne, sh
 from ..mir import parent_fn
 
@@ -107,7 +108,78 @@ def r2_terminator_and_eof(ctx):
                 ctx.ok("decode-once#%d" % d.block, g.where(d.block), "decoded once, after the line is complete")
 
 
-RULES = [("C17-R1", r1_no_discarded_overread), ("C17-R2", r2_terminator_and_eof)]
+CONTENT_CHANGERS = ("trim", "trim_end", "trim_start", "trim_matches", "trim_end_matches", "trim_start_matches", "strip_suffix", "strip_prefix",
+                    "replace_range", "replace", "truncate", "remove", "retain", "clear", "insert", "insert_str", "drain", "split_off",
+                    "make_ascii_lowercase", "make_ascii_uppercase", "to_lowercase", "to_uppercase", "to_ascii_lowercase", "to_ascii_uppercase")
+
+
+def r3_each_byte_once_and_unchanged(ctx):
+    """(a) Bytes looked at through fill_buf stay in std's buffer until consume(n): a copy of them into the line must be followed,
+    before anything else is read, by a consume - otherwise the next read delivers them a second time (whenever a line is only
+    partly buffered when the call starts).  (b) Between the platform routine and the script nothing edits the line: the
+    terminator is removed where the line is read, by position (pop / copy up to the newline's index), and that is all."""
+    fam = ctx.lib.family(IMPL)
+    n = 0
+    for g in fam:
+        ctx.touch(g)
+        fills = [c for c in g.calls() if (c.callee or "").split("::")[-1] == "fill_buf"]
+        if not fills:
+            continue
+        readers = {c.block for c in g.calls() if (c.callee or "").split("::")[-1] in ("read_until", "read_line", "fill_buf", "read", "read_to_end", "read_exact", "lines")}
+        consumes = {c.block for c in g.calls() if (c.callee or "").split("::")[-1] == "consume"}
+        for c in g.calls():
+            last = (c.callee or "").split("::")[-1]
+            if last not in ("to_vec", "to_owned", "extend_from_slice", "copy_from_slice", "extend", "from_utf8_lossy", "from_utf8", "push_str", "clone_from_slice", "into", "to_string"):
+                continue
+            if not any("fill_buf(" in sh(ne(g.deep(a))) for a in c.args):
+                continue
+            n += 1
+            r = g.reach_from_succ(c.block, removed_nodes=consumes)
+            again = sorted((r & readers) - {c.block})
+            if again:
+                ctx.bad("peeked-bytes-read-twice|%s" % last, g.where(c.block), "bytes obtained with fill_buf are copied (`%s`) and then more input is read without a consume in between: the copied bytes are still in std's buffer and are delivered again, so a line that is only partly buffered when read_line starts comes back with its beginning doubled" % last)
+            else:
+                ctx.ok("peeked-bytes-consumed#%d" % n, g.where(c.block), "every path from the copy to the next read passes consume")
+    if n == 0:
+        ctx.ok("no-peeking", ctx.need(IMPL).where(), "the line is taken with read_until / read_line: std consumes what it delivers")
+    # (b) no editing of the line on its way to the script
+    chain = [ctx.need("builtins::GlobalBuiltin::read_line")]
+    for g0 in chain:
+        for g in ctx.lib.family(g0.id):
+            ctx.touch(g)
+            edits = [c for c in g.calls() if (c.callee or "").split("::")[-1] in CONTENT_CHANGERS or (c.callee or "").split("::")[-1] in ("pop", "push", "push_str")]
+            if edits:
+                ctx.bad("line-edited|%s|%s" % (g0.id.split("::")[-1], (edits[0].callee or "").split("::")[-1]), g.where(edits[0].block), "%s edits the line after the platform routine returned it (%s): characters that belong to the line - trailing blanks or tabs, a line consisting of blanks - are removed or altered before the script sees them" % (g0.id.split("::")[-2] + "::" + g0.id.split("::")[-1], (edits[0].callee or "").split("::")[-1]))
+            else:
+                ctx.ok("line-unedited|%s" % g0.id.split("::")[-1], g.where(), "the wrapper hands the platform routine's result on as it is")
+    f = ctx.need(IMPL)
+    edits = [c for g in fam for c in g.calls() if (c.callee or "").split("::")[-1] in CONTENT_CHANGERS]
+    if edits:
+        ctx.bad("line-edited|impl|%s" % (edits[0].callee or "").split("::")[-1], f.where(edits[0].block), "read_line edits the content of the line with `%s`: only the terminator may be removed, by position" % (edits[0].callee or "").split("::")[-1])
+    else:
+        ctx.ok("line-unedited|impl", f.where(), "only positional removal of the terminator (pop / copy up to the newline's index)")
+    # the terminator removal is conditional on the last byte being the newline (the final line may come without one)
+    pops = [c for g in fam for c in g.calls() if (c.callee or "").split("::")[-1] == "pop"]
+    for c in pops:
+        g = c.fn
+        import json as _json
+        guard = False
+        for S, al in g.constraints(c.block):
+            d = sh(ne(g.deep(g.blocks[S]["t"]["d"])))
+            if re.match(r"^eq\(last\(", d) and 0 not in al:
+                # the compared constant is a promoted `&b'\n'`: look the 10 up in the promoted bodies of this function
+                proms = _json.dumps(g.f.get("promoted", []))
+                if '"int": 10' in proms:
+                    guard = True
+            if ("ends_with(" in d or "last(" in d) and re.search(r"\b10\b", d) and 0 not in al:
+                guard = True
+        if guard:
+            ctx.ok("pop|only-a-newline", g.where(c.block), "pop under `last == newline`")
+        else:
+            ctx.bad("pop|unconditional", g.where(c.block), "the last byte of the line is removed without testing that it is the newline: an unterminated final line loses its last character")
+
+
+RULES = [("C17-R1", r1_no_discarded_overread), ("C17-R2", r2_terminator_and_eof), ("C17-R3", r3_each_byte_once_and_unchanged)]
 
 EXPLANATION = (
     "R1: in the host implementation of Stdin::read_line (resolved through the sys::stdin alias from GlobalBuiltin::read_line) "
@@ -115,7 +187,10 @@ EXPLANATION = (
     "byte, or by a raw read whose surplus is carried in a static to the next call; a raw multi-byte read(2) on descriptor 0 "
     "followed by truncation at the first newline, with no carry-over state, discards everything after that newline. No other "
     "body of the library may read standard input. R2: the delimiter is byte 10 and the terminator is removed. Decides the "
-    "structural cause of lost input; does not decide chunking behaviour as such (needs a pipe)."
+    "structural cause of lost input; does not decide chunking behaviour as such (needs a pipe). R3: bytes looked at through "
+    "fill_buf and copied into the line are consumed before anything else is read (else they are delivered twice); neither the "
+    "platform routine nor the built-in wrapper edits the content of the line (trim / replace / truncate ...), the terminator is "
+    "removed by position only, and a pop is guarded by `last == newline`."
 )
 ASSUMPTIONS = ["unix back end only (windows/wasm implementations are not compiled on this host)", "std's Stdin buffer is process-wide and keeps unread bytes between calls"]
 TRUSTED = ["rustc nightly MIR/trait resolution", "nsx exporter"]
